@@ -14,7 +14,7 @@ pub fn atoms(p: &Program) -> Vec<T> {
     let mut out: Vec<T> = vec![];
     fn term_atoms(t: &T, out: &mut Vec<T>) {
         match t {
-            T::Cons(h, tl) => {
+            T::Cons(h, tl) | T::Cmp(_, h, tl) => {
                 term_atoms(h, out);
                 term_atoms(tl, out);
             }
@@ -47,6 +47,13 @@ pub fn atoms(p: &Program) -> Vec<T> {
     out
 }
 
+pub fn has_compound(p: &Program) -> bool {
+    p.any(|g| match g {
+        G::Eq(a, b) | G::Neq(a, b) => a.has_compound() || b.has_compound(),
+        _ => false,
+    })
+}
+
 /// Universe: atoms and Nil, pairs over them, and (proper or improper) lists of two elements.
 pub fn universe(p: &Program) -> Vec<T> {
     let mut l0 = atoms(p);
@@ -55,6 +62,14 @@ pub fn universe(p: &Program) -> Vec<T> {
     for a in l0.iter() {
         for b in l0.iter() {
             u.push(T::cons(a.clone(), b.clone()));
+        }
+    }
+    if has_compound(p) {
+        for a in l0.iter() {
+            for b in l0.iter() {
+                u.push(T::cmp(0, a.clone(), b.clone()));
+                u.push(T::cmp(1, a.clone(), b.clone()));
+            }
         }
     }
     for a in l0.iter() {
@@ -71,6 +86,7 @@ fn eval(t: &T, asg: &BTreeMap<VarIx, T>) -> Option<T> {
     match t {
         T::V(v) => asg.get(v).cloned(),
         T::Cons(h, tl) => Some(T::cons(eval(h, asg)?, eval(tl, asg)?)),
+        T::Cmp(k, a, b) => Some(T::cmp(*k, eval(a, asg)?, eval(b, asg)?)),
         T::Any(_) => None,
         other => Some(other.clone()),
     }
@@ -155,6 +171,7 @@ fn matches(pat: &T, ground: &T, theta: &mut BTreeMap<u32, T>) -> bool {
             }
         },
         (T::Cons(h1, t1), T::Cons(h2, t2)) => matches(h1, h2, theta) && matches(t1, t2, theta),
+        (T::Cmp(k1, a1, b1), T::Cmp(k2, a2, b2)) => k1 == k2 && matches(a1, a2, theta) && matches(b1, b2, theta),
         (a, b) => a == b,
     }
 }
@@ -168,6 +185,7 @@ fn subst_any(t: &T, theta: &BTreeMap<u32, T>, base: u32) -> T {
         },
         T::V(k) => T::V(base + *k),
         T::Cons(h, tl) => T::cons(subst_any(h, theta, base), subst_any(tl, theta, base)),
+        T::Cmp(k, a, b) => T::cmp(*k, subst_any(a, theta, base), subst_any(b, theta, base)),
         other => other.clone(),
     }
 }
